@@ -197,8 +197,9 @@ def run(eng, R):
     rets = [r for r in ast.walk(f.node) if isinstance(r, ast.Return)]
     got = {}
     for r in rets:
-        conds = common.guard_conditions(f.node, r)
-        got[_txt(r.value)] = [(frozenset(_txt(v) for v in (c.values if isinstance(c, ast.BoolOp) and isinstance(c.op, ast.Or) else [c])), pol) for c, pol in conds]
+        # (temporaries for the condition and for the base list are read through)
+        conds = [(common.resolve_local(f.node, c), pol) for c, pol in common.guard_conditions(f.node, r)]
+        got[_txt(common.resolve_local(f.node, r.value))] = [(frozenset(_txt(v) for v in (c.values if isinstance(c, ast.BoolOp) and isinstance(c.op, ast.Or) else [c])), pol) for c, pol in conds]
     wc = frozenset({"self._dynamic_error_algorithm == 'iterative'", "first_fit and self.has_x_errors"})
     sup = "super(XYFit, self)._get_node_names_to_freeze(first_fit)"
     ok = got.get("self._PROJECTED_NODE_NAMES + " + sup) == [(wc, True)] and got.get(sup) == [(wc, False)]
@@ -428,8 +429,12 @@ def run(eng, R):
             R.ob("S-imin", "%s.%s:rebuild" % (IM, fn), ok2, (f.file, f.lineno), "%s must discard the live Minuit object so that the next use is rebuilt from the specification" % fn)
         else:
             want = "True" if fn == "fix" else "False"
-            live = [s for s in ast.walk(f.node) if isinstance(s, ast.Assign) and isinstance(s.targets[0], ast.Subscript) and isinstance(s.targets[0].value, ast.Attribute)
-                    and s.targets[0].value.attr == "fixed" and "_get_iminuit()" in _txt(s.targets[0].value) and _txt(s.value) == want]
+            live = []
+            for s in ast.walk(f.node):
+                if isinstance(s, ast.Assign) and isinstance(s.targets[0], ast.Subscript) and _txt(s.value) == want:
+                    recv = common.resolve_local(f.node, s.targets[0].value)   # (a local view of the flag array is read through)
+                    if isinstance(recv, ast.Attribute) and recv.attr == "fixed" and "_get_iminuit()" in _txt(recv):
+                        live.append(s)
             idxs = {_txt(s.targets[0].slice) for s in live}
             R.ob("S-imin", "%s.%s:live" % (IM, fn), len(live) == 2 and idxs == {"parameter_name", "self.parameter_names.index(parameter_name)"}, (f.file, f.lineno),
                  "%s must flip the fixed flag of the same parameter on the live Minuit object (by name for iminuit 1, by its index for iminuit 2)" % fn)
@@ -450,11 +455,12 @@ def run(eng, R):
     src = _txt(f.node)
     # canonical form; the locals are placeholders (`_pos` position map, `_nfix` running count of fixed parameters, `_vals` free start values, `_dyn` 2-row table,
     # `_sel` row selector) - bound jointly, so exchanging two of them between statements is not the same thing
-    ok = src.like("for _i, _f in enumerate(self._par_fixed): if _f: _pos[_i] = _i _nfix += 1 else: _pos[_i] = _i - _nfix _vals.append(self.parameter_values[_i])")
+    PV = "_pv" if src.like("_pv = self.parameter_values") else "self.parameter_values"   # (the current values may be held in a local)
+    ok = src.like("for _i, _f in enumerate(self._par_fixed): if _f: _pos[_i] = _i _nfix += 1 else: _pos[_i] = _i - _nfix _vals.append(%s[_i])" % PV)
     R.ob("S-scipy", "%s.minimize:index map" % SC, ok, (f.file, f.lineno),
          "the position of a fixed parameter is its own index (row of stored values), the position of a free one is its index minus the number of fixed parameters before it "
          "(row of minimiser arguments), and exactly the free ones are handed to scipy in order")
-    ok = src.all_like("_nfix = 0", "_vals = []", "_sel = np.array(self._par_fixed, dtype=int)", "_dyn = np.zeros(shape=(2,) + self.parameter_values.shape)", "_dyn[1] = self.parameter_values")
+    ok = src.all_like("_nfix = 0", "_vals = []", "_sel = np.array(self._par_fixed, dtype=int)", "_dyn = np.zeros(shape=(2,) + %s.shape)" % PV, "_dyn[1] = %s" % PV)
     R.ob("S-scipy", "%s.minimize:rows" % SC, ok, (f.file, f.lineno), "row 0 holds the minimiser arguments, row 1 the stored (fixed) values; the row selector is 1 exactly for fixed parameters")
     ok = src.all_like("def _fn(_args): _dyn[0, 0:-_nfix] = _args return self._func_wrapper_unpack_args(_dyn[_sel, _pos])", "_dyn[0, 0:-_nfix] = self._opt_result.x self._par_val = _dyn[_sel, _pos]")
     dyn = src._binding.get("_dyn")
